@@ -219,6 +219,8 @@ def h_reversed(it, args, kw, node):
 
 
 def h_sorted(it, args, kw, node):
+    if isinstance(args[0], (set, frozenset)) and not kw and not contains_symbolic(list(args[0])):
+        return sorted(args[0])  # the result does not depend on the iteration order: no hash-seed event
     items = it.iterate(args[0], node)
     if contains_symbolic(items) or kw:
         if all(sym.is_intlike(x) for x in items) and len(items) == 2 and not kw:
